@@ -24,7 +24,7 @@ def run(ctx):
     ctx.log("ColangSM: %d programs, %d spec states / %d transitions (L1S, L2S, L2bS, L2cS: %d counterexamples), %d states replayed, drift %d" % (
         csm["programs"], csm["states"], csm["transitions"], len(c06viol), csm["compared"], csm["drift"]))
     for t in csm["traces"]:
-        srcs.setdefault(t["origin"], "")
+        srcs.setdefault(t["origin"], t.get("source", ""))
     traces += csm["traces"]
     steps = sum(len(t["steps"]) for t in traces)
     ctx.log("%d traces / %d recorded states (%d from the repository's tests)" % (len(traces), steps, ntests))
@@ -40,7 +40,9 @@ def run(ctx):
             orphans = v["orphans"].get(str(i)) if isinstance(v["orphans"], dict) else None
             ctx.violation("orphan-flow", "running flow instance(s) %s outlive every flow that started/activated them, after event #%d of %s (origin %s)" % (
                 orphans, i, base["events"][:i], t["origin"]), dict(base, step=i, sig={"clause": "L1", "origin_class": oc}))
-        if not v["l2ok"]:
+        # (a Stop that the PROGRAM sends itself - `send $ref.Stop()` - is not the interpreter's doing: such programs are not
+        #  judged by the life-cycle monitor)
+        if not v["l2ok"] and ".Stop()" not in (srcs.get(t["origin"]) or ""):
             ctx.violation("action-lifecycle", "%s at event #%d of %s (origin %s)" % (v["l2what"], v["l2step"], base["events"][:v["l2step"]], t["origin"]),
                           dict(base, step=v["l2step"], sig={"clause": "L2", "what": v["l2what"], "origin_class": oc}))
         if v["l2b"]:
